@@ -43,6 +43,24 @@ theorem setTimeRange_step (ctx : CCtx) (fa : FloatArith) (c : Expr) (w : Window)
     rw [show reduce (nilRCtx fa) (rewriteNoTime c) = ntPart fa c from rfl, b2 L, hev L]
   · exact Nat.le_trans b4 (by omega)
 
+/-- **One call, as the query engine sees it**: `ConditionExpr` of the new condition succeeds; its
+residual has the value of the old non-time part, and its range is exactly `[start, end - 1 ns]`
+(unless the non-time part folds to `false`, where the whole condition is `false` and no range is
+needed). Window instants must be representable time literals (`MinTime < t ≤ MaxTime`). -/
+theorem setTimeRange_observed (ctx : CCtx) (fa : FloatArith) (c : Expr) (w : Window)
+    (hcls : timeOnLeft ctx.lowerTbl c = true) (hT : isTimeRef ctx.lowerTbl timeVar = true)
+    (hrt : RT ctx.lowerTbl c w) (hw : WindowOK ctx w) (hr : w.inRange) :
+    ∃ c' res tr, setTimeRange fa ctx.lowerTbl (some c) w = .ok c' ∧
+      ConditionExpr ctx (some c') = .ok (res, tr) ∧
+      (∀ L, evalOpt L res = nonTimeHolds ctx.lowerTbl L c) ∧
+      (ntPart fa c ≠ .boolean false → tr = ⟨w.start, w.stop - 1⟩) ∧
+      (ntPart fa c = .boolean false → tr = {}) := by
+  obtain ⟨hN, hev, _⟩ := ntPart_spec ctx.lowerTbl fa c hcls
+  obtain ⟨res, tr, h1, h2, h3, h4⟩ := conditionExpr_build ctx fa (ntPart fa c) w hN hT hw hr
+  refine ⟨stepSpec fa c w, res, tr, setTimeRange_of_RT ctx.lowerTbl fa c w hcls hrt, ?_, ?_, h3, h4⟩
+  · rw [stepSpec_eq]; exact h1
+  · intro L; rw [h2 L, hev L]
+
 /-- The condition `k` calls later corresponds to window `k`, for every `k`. -/
 def SeqOK (P : Expr → Window → Prop) : List Expr → List Window → Prop
   | [], [] => True
